@@ -128,7 +128,7 @@ def run(src, tier, seed):
     else:
         res.bad(r, 'mkFun-no-sort', fx.loc(mk), 'Logic::mkFun no longer sorts the arguments of commutative symbols before looking the key up: (f a b) and (f b a) get different identities')
     for fname, sorter in SORT_BEFORE_KEY.items():
-        f = fx.func(fname)
+        f = fx.func(fname, pred=lambda f: f['file'].endswith('.cc'))   # the in-class two-argument forwarder is not the constructor
         order = []
         for n in fwalk(f):
             if n.get('k') == 'call' and not n.get('as'):
